@@ -27,7 +27,7 @@
 #include "harness_zone.h"
 #include "harness_c18.h"
 
-namespace vz { long g_factory_calls = 0; }
+namespace vz { std::atomic<long> g_factory_calls{0}; }
 namespace cctz_extension { ZoneInfoSourceFactory zone_info_source_factory = vz::Factory; }
 
 // UBSan calls this (weak hook) on every report; we count per case.
